@@ -1224,6 +1224,7 @@ void CodeENDEXPECT(Word Code) {
 void AsmErrPassInit(void) {
     ErrorCount = 0;
     WarnCount  = 0;
+    JmpErrors  = 0;
     ClearExpectErrors();
     InExpect = False;
 }
